@@ -63,7 +63,7 @@ def check_one(args):
             want = compute_dask(p, programs.dask_env(cutsL, cutsR, known), optimize=False)
         except Exception as ex:  # noqa: BLE001
             return (idx, p.name, "unopt-raises", type(ex).__name__)
-    ok = e2e.same(got, want, sort_rows=p.unordered) or e2e.same(got, want, sort_rows=p.unordered, drop_index=p.unordered)
+    ok = e2e.same(got, want, sort_rows=p.unordered, drop_index=p.noindex)
     if not ok:
         return (idx, p.name, "differs", f"got={e2e.describe(got, 6)!r:.300} want={e2e.describe(want, 6)!r:.300}")
     return (idx, p.name, "ok", "")
